@@ -147,6 +147,7 @@ func (c *Channel) Get(ctx context.Context) (value interface{}, err error) {
 			if err != nil {
 				return true
 			}
+			verifPoint(verifChannelGetLocked)
 
 			// branch for the case that we have rolled back, and need to read from the buffer instead
 			if c.rollback > 0 {
